@@ -742,7 +742,7 @@ from doubles.s3 import FakeS3
 from datashard.storage_backend import S3StorageBackend, LocalStorageBackend
 import datashard.storage_backend as sb, tempfile, os, shutil
 bad = []
-for prefix in ("", "wh/t1"):
+for prefix in ("", "wh/t1", "data", "metadata", "t"):      # prefixes that occur again inside the relative names
     be = S3StorageBackend.__new__(S3StorageBackend)
     be.bucket, be.prefix, be.s3, be.use_conditional_writes = "bkt", prefix, FakeS3(), True
     names = ["data/a.parquet", "data/sub/b.parquet", "data_old/c.parquet", "database/d", "metadata/v1.metadata.json",
